@@ -429,6 +429,16 @@ def oracle(case, out):
             r = out['reads']
             if len(r) < 4 or not r[2]:
                 return ('login/ok-without-sync', 'True with sync_original_prompt but the responses to Enter were %r' % (r,))
+            # "synchronised" means the last two answers to Enter look alike (edit distance below 40 % of the first), computed here independently
+            a_, b_ = r[2] or '', r[3] or ''
+            prev = list(range(len(b_) + 1))
+            for i_, ca in enumerate(a_, 1):
+                cur = [i_]
+                for j_, cb in enumerate(b_, 1):
+                    cur.append(min(prev[j_] + 1, cur[j_ - 1] + 1, prev[j_ - 1] + (ca != cb)))
+                prev = cur
+            if len(a_) and float(prev[-1]) / len(a_) >= 0.4:
+                return ('login/ok-without-sync', 'True with sync_original_prompt although the last two answers to Enter differ: %r / %r (edit distance %d)' % (a_[-40:], b_[-40:], prev[-1]))
         if not sh:
             if not o['reset'] and not o['sync']:
                 return (KNOWN_SILENT, 'login() returned True although the server never reached a shell prompt (steps done: %d)' % out['server_k'])
